@@ -146,6 +146,12 @@ func genSD(t *rapid.T, label string) SD {
 	}
 	if rapid.Bool().Draw(t, label+"-labels") {
 		sd.Labels = map[string]string{"zone": rapid.SampledFrom([]string{"a", "b: c", "#x", longValue}).Draw(t, label+"-zone")}
+		if rapid.IntRange(0, 3).Draw(t, label+"-mixedKeys") == 0 {
+			// label names that mix digits and letters (the YAML library orders map keys "naturally")
+			for _, k := range []string{"x9_", "x10A", "x1Ab", "a09a", "a0aA", "a9b_9"} {
+				sd.Labels[k] = "v"
+			}
+		}
 	}
 	return sd
 }
